@@ -297,7 +297,9 @@ pub fn run(outdir: &str, seed: u64, thorough: bool) -> serde_json::Value {
             let tb = match r.below(3) { 0 => gen_ty(&mut r, 2), 1 => widen(&ta, &mut r), _ => { let x = gen_ty(&mut r, 1); if r.chance(1, 2) && !matches!(x, Ty::Opt(_)) { Ty::Opt(Box::new(x)) } else { x } } };
             let (a, b) = (to_dt(&ta), to_dt(&tb));
             // discriminating class for the known finding on struct unions: a struct on one side, different shapes
-            let class = if (has_struct(&ta) || has_struct(&tb)) && shape(&ta) != shape(&tb) { "struct-with-different-field-set" } else { "other" };
+            let big = |t: &Ty| format!("{:?}", t).contains("90071992547409") || format!("{:?}", t).contains("92233720368547758");
+            let negz = |t: &Ty| format!("{:?}", t).contains("-0.0");
+            let class = if big(&ta) || big(&tb) { "integer-above-2p53-into-float" } else if negz(&ta) || negz(&tb) { "negative-zero" } else if shape(&ta) != shape(&tb) && (is_composite(&ta) || is_composite(&tb)) { "composite-types-of-different-shape" } else { "other" };
             let va: Vec<Value> = (0..3).map(|_| sample(&ta, &mut r)).collect();
             let vb: Vec<Value> = (0..3).map(|_| sample(&tb, &mut r)).collect();
             let res = catch_unwind(AssertUnwindSafe(|| (a.is_subset_of(&b), a.super_union(&b).ok(), a.super_intersection(&b).ok())));
@@ -314,15 +316,30 @@ pub fn run(outdir: &str, seed: u64, thorough: bool) -> serde_json::Value {
                 if !a.contains(v) { continue; }
                 if sub && !mem_dt(&b, v) { st.violation(json!({"kind":"dt-subset-unsound","class":class,"a":a.to_string(),"b":b.to_string(),"value":v.to_string()})); }
                 if let Some(u) = &un { if !mem_dt(u, v) { st.bump(&format!("dtviol_union_{}", class)); st.violation(json!({"kind":"dt-union-lost-value","class":class,"a":a.to_string(),"b":b.to_string(),"union":u.to_string(),"value":v.to_string(),"from":"a"})); } }
-                if let Some(i) = &inter { if b.contains(v) && !mem_dt(i, v) { st.violation(json!({"kind":"dt-intersection-lost-value","class":class,"a":a.to_string(),"b":b.to_string(),"intersection":i.to_string(),"value":v.to_string()})); } }
+                if let Some(i) = &inter { if mem_dt(&b, v) && !mem_dt(i, v) { st.violation(json!({"kind":"dt-intersection-lost-value","class":class,"a":a.to_string(),"b":b.to_string(),"intersection":i.to_string(),"value":v.to_string()})); } }
             }
             for v in vb.iter() {
                 if !b.contains(v) { continue; }
                 if let Some(u) = &un { if !mem_dt(u, v) { st.violation(json!({"kind":"dt-union-lost-value","class":class,"a":a.to_string(),"b":b.to_string(),"union":u.to_string(),"value":v.to_string(),"from":"b"})); } }
-                if let Some(i) = &inter { if a.contains(v) && !mem_dt(i, v) { st.violation(json!({"kind":"dt-intersection-lost-value","class":class,"a":a.to_string(),"b":b.to_string(),"intersection":i.to_string(),"value":v.to_string()})); } }
+                if let Some(i) = &inter { if mem_dt(&a, v) && !mem_dt(i, v) { st.violation(json!({"kind":"dt-intersection-lost-value","class":class,"a":a.to_string(),"b":b.to_string(),"intersection":i.to_string(),"value":v.to_string()})); } }
             }
             if k < 1 { st.sample(json!({"stream":"datatype-laws","a":a.to_string(),"b":b.to_string(),"a_subset_b":sub,"union":un.map(|u| u.to_string()),"intersection":inter.map(|u| u.to_string())})); }
         }
+    }
+    {
+        use qrlew::data_type::{value::Value, DataType, Variant as _};
+        use crate::typegen::member;
+        // pinned witnesses of the known findings
+        let a = DataType::list(DataType::optional(DataType::boolean()), 0, 1);
+        let b = DataType::optional(DataType::float_min(-5.5));
+        let i = a.super_intersection(&b).ok();
+        let v = Value::none();
+        st.known.push(json!({"finding":"C11-intersection-composite-different-shape","reproduced": i.as_ref().map(|i| member(&a, &v) && member(&b, &v) && !member(i, &v)).unwrap_or(false),
+            "a":a.to_string(),"b":b.to_string(),"intersection":i.map(|x| x.to_string()),"value":"none"}));
+        let a = DataType::integer_value(9007199254740993); let b = DataType::float_values([5.0, 9007199254740992.0]);
+        let i = a.super_intersection(&b).ok(); let v = Value::integer(9007199254740993);
+        st.known.push(json!({"finding":"C11-int-float-above-2p53","reproduced": i.as_ref().map(|i| member(&a, &v) && member(&b, &v) && !member(i, &v)).unwrap_or(false),
+            "a":a.to_string(),"b":b.to_string(),"intersection":i.map(|x| x.to_string()),"value":"9007199254740993"}));
     }
     let header = "From QV Require Import Intervals.Model Corr.Lib Corr.C11.";
     let f1 = write_shards(outdir, "c11_hist", header, "list op * list (option (N * Z)) * option (list (Z * Z))", "hist_check", &hist_cases, if thorough { 400 } else { 100 });
